@@ -627,6 +627,10 @@ func c03(c *Ctx) {
 	c03PeerKeys(c)
 	c04DatagramBuffers(c)
 	pooledObjectsReset(c, "pooled-object-reset", "services", "listener", "server")
+	// the goroutine that serves a connection works on that connection: no goroutine started in a loop of the listeners or
+	// the server reads a variable the loop assigns again (shared with C08)
+	c08ListenerOwnVariables(c)
+	releasedMemoryNotRetained(c, "released-memory-not-retained", "what one connection receives or reports then depends on another connection that is open at the same time", "services", "listener", "server")
 }
 
 func baseOf(addr ssa.Value) ssa.Value {
